@@ -3,6 +3,7 @@ WEAVE = [dict(file='src/fiber_rwlock.c', fns=FNS, loops='loops.json')]
 PARK = ['fiber_manager_get', 'fiber_manager_wait_in_mpsc_queue', 'fiber_manager_wake_from_mpsc_queue']
 GROUPS = [dict(name=f.replace('fiber_rwlock_', ''), tu='rwlock.c', harness='h_' + f.replace('fiber_rwlock_', ''), mode='D', enforce=f,
                replace=PARK, functions=[f]) for f in FNS] + [
+    dict(name='init', tu='rwlock.c', harness='h_init', mode='H', functions=['fiber_rwlock_init'], unwind=3, exact_unwind=True, cbmc_flags=['--no-malloc-may-fail']),  # allocation failure: see the note at h_init
     dict(name='lemmas', tu='lemmas.c', kind='lemmas', harness='', no_native='pure lemma'),
 ]
 ASSUMPTIONS = [
